@@ -7,7 +7,13 @@ Tie to the source (robotpy_ext/misc/precise_delay.py, run from $VERIF_REPO):
     list (body = the worker itself advances the FPGA clock by the generated
     duration; wait(); free(); leaving the with-block) and takes a snapshot after
     every operation: FPGA time, the alarm the HAL holds, number of
-    cleanNotifier calls on the handle.  The with-block is left in every way
+    cleanNotifier calls on the handle.  The with-block is entered either at the
+    instant of construction (`with NotifierDelay(P) as d:`) or LATER
+    (`d = NotifierDelay(P); <set-up work, maybe waits>; with d as e:`), and
+    __enter__ is also called directly anywhere; after every __enter__ the same
+    snapshot is taken (it must have changed nothing: the grid stays anchored at
+    the construction instant) and whether it returned the object itself.  The
+    operations of the block run on what `as` bound.  The with-block is left in every way
     Python has: running to its end, break, return, and an exception of several
     classes (Exception subclasses and BaseException-only ones) raised in the
     block; __exit__ is also called directly, with and without exception
@@ -83,6 +89,8 @@ def op_text(o):
         return "wait()"
     if o[0] == "F":
         return "free()"
+    if o[0] == "E":
+        return "__enter__ (entering the with-block)"
     h = how_of(o)
     if h.startswith("raise:"):
         return "leaving the with-block (__exit__) by a %s raised in the loop body" % h[6:]
@@ -209,10 +217,37 @@ def impl():
 #
 # case = {"n": whole microseconds or None, "P": float.hex of the constructor
 #         argument, "t0": FPGA microseconds at construction, "with": bool,
-#         "ops": [["B", us] | ["W"] | ["F"] | ["X"] | ["X", how]]}
-# X = __exit__: the first X of a "with" case is the end of the with-statement around the
-# operations before it, left the way `how` says (see HOWS; default "end"); any other X is a
-# direct call of __exit__ with the matching (exc_type, exc_val, exc_tb).
+#         "ops": [["B", us] | ["W"] | ["F"] | ["E"] | ["X"] | ["X", how]]}
+# E = __enter__, X = __exit__.  In a "with" case the first E and the first X after it are a real
+# with-statement: the operations before that E run on the freshly built object BEFORE the block is
+# entered (set-up work: the clock moves between construction and entry; E at index 0 is the one-liner
+# `with NotifierDelay(P) as d:`), the operations between them are the block, left the way `how`
+# says (see HOWS; default "end").  Every other E / X is a direct call of __enter__() /
+# __exit__ with the matching (exc_type, exc_val, exc_tb).  A "with" case whose first X is not
+# preceded by an E (the older corpus and replay files) means the one-liner: norm() puts the E in front.
+
+def norm(case):
+    """the case with the E of its with-statement made explicit (idempotent)"""
+    if not case.get("with"):
+        return case
+    kinds = [o[0] for o in case["ops"]]
+    if "X" in kinds and "E" not in kinds[:kinds.index("X")]:
+        return dict(case, ops=[["E"]] + [list(o) for o in case["ops"]])
+    return case
+
+
+def with_span(case):
+    """(index of the E, index of the X) of the real with-statement of a case, or None"""
+    if not case.get("with"):
+        return None
+    kinds = [o[0] for o in case["ops"]]
+    if "E" not in kinds:
+        return None
+    e = kinds.index("E")
+    if "X" not in kinds[e + 1:]:
+        return None
+    return e, kinds.index("X", e + 1)
+
 
 def case_P(case):
     return float.fromhex(case["P"])
@@ -220,13 +255,14 @@ def case_P(case):
 
 def mk_case(n, t0, ops, use_with=False, P=None):
     P = (n / 1e6) if P is None else P
-    return {"n": n, "P": float(P).hex(), "t0": int(t0), "with": bool(use_with), "ops": ops}
+    return norm({"n": n, "P": float(P).hex(), "t0": int(t0), "with": bool(use_with), "ops": ops})
 
 
 def drive(sim, cls, case):
+    """`case` must be normalised (norm): results are per operation of case["ops"]"""
     P = case_P(case)
     ops = case["ops"]
-    use_with = case["with"] and any(o[0] == "X" for o in ops)
+    span = with_span(case)
     q = queue.Queue()
     sim.reset(q)
     sim.restart(case["t0"])
@@ -253,6 +289,11 @@ def drive(sim, cls, case):
             elif o[0] == "F":
                 d.free()
                 res["snaps"].append(snap())
+            elif o[0] == "E":
+                # __enter__ called directly (what contextlib.ExitStack.enter_context or a second with-statement on
+                # the same object does): did it return the object itself
+                ret = d.__enter__()
+                res["snaps"].append(snap() + [1 if ret is d else 0])
             else:
                 # X that is not the end of the with-statement of this case: __exit__ called the way
                 # the with-statement (or contextlib.ExitStack) calls it; the exception comes out iff
@@ -264,25 +305,49 @@ def drive(sim, cls, case):
                     ret = d.__exit__(type(exc), exc, exc.__traceback__)
                 res["snaps"].append(snap() + [1 if (exc is not None and not ret) else 0])
 
-    def with_statement(i):
-        """`with cls(P) as d:` around ops[:i], left the way ops[i] says; returns d"""
+    def with_statement(e, i):
+        """e == 0: `with cls(P) as d:` around ops[1:i] (construction and entry at the same instant);
+        e > 0: `obj = cls(P)`, ops[:e] on obj (set-up work), then `with obj as d:` around ops[e+1:i].
+        The block is left the way ops[i] says; returns the object"""
         how = how_of(ops[i])
         exc = make_exc(how)
         holder = []
 
+        def block(d):
+            run(d, ops[e + 1:i])        # on what `as` bound
+            return how
+
         def function_with_the_block():
             for _ in (0,):              # a loop around the with-statement, so that break can leave it
-                with cls(P) as d:
-                    holder.append(d)
+                if e == 0:
+                    with cls(P) as d:
+                        holder.append(d)
+                        res["ctor"] = "ok"
+                        res["snap0"] = snap()
+                        # the object itself is not reachable here except through d: its class is all that can be checked
+                        res["snaps"].append(snap() + [1 if type(d) is cls else 0])
+                        h = block(d)
+                        if h == "break":
+                            break
+                        if h == "return":
+                            return
+                        if exc is not None:
+                            raise exc
+                else:
+                    obj = cls(P)
+                    holder.append(obj)
                     res["ctor"] = "ok"
                     res["snap0"] = snap()
-                    run(d, ops[:i])
-                    if how == "break":
-                        break
-                    if how == "return":
-                        return
-                    if exc is not None:
-                        raise exc
+                    run(obj, ops[:e])   # before the with-block is entered
+                    with obj as d:
+                        res["snaps"].append(snap() + [1 if d is obj else 0])
+                        h = block(d)
+                        if h == "break":
+                            break
+                        if h == "return":
+                            return
+                        if exc is not None:
+                            raise exc
         came_out = False
         try:
             function_with_the_block()
@@ -297,10 +362,9 @@ def drive(sim, cls, case):
         return holder.pop()
 
     def body():
-        if use_with:
-            i = [o[0] for o in ops].index("X")
-            d = with_statement(i)
-            run(d, ops[i + 1:])
+        if span:
+            d = with_statement(*span)
+            run(d, ops[span[1] + 1:])
         else:
             d = cls(P)
             res["ctor"] = "ok"
@@ -373,11 +437,20 @@ def oracle(case, res):
     k = 0
     freed = False
     rel = None
+    ent = ""                    # set once a with-block has been entered after the construction instant
     ops = case["ops"]
     for i, o in enumerate(ops):
         if i >= len(res["snaps"]):
             break
         cur = res["snaps"][i]
+        if o[0] == "E":
+            # entering the with-block -- at the construction instant or any time later -- is no clause of its own:
+            # the grid below stays t0 + k*P with t0 the instant of CONSTRUCTION.  Only the bookkeeping is stated here.
+            if cur[0] > t0 and not ent:
+                ent = " (the object was built at %d, its with-block entered at %d, %d us later)" % (t0, cur[0], cur[0] - t0)
+            if not freed and cur[1] != t0 + (k + 1) * n:
+                out.append(("alarm-off-grid", "op %d: after __enter__ at %d the alarm for wait %d is %s, the grid point t0+%d*P is %d (t0=%d, P=%d us)"
+                            % (i, cur[0], k + 1, cur[1], k + 1, t0 + (k + 1) * n, t0, n)))
         if o[0] == "W":
             call, ret = prev[0], cur[0]
             if not freed:
@@ -387,14 +460,14 @@ def oracle(case, res):
                     out.append(("alarm-off-grid", "op %d: the alarm armed for wait %d is %s, the grid point t0+%d*P is %d (t0=%d, P=%d us)"
                                 % (i, k, prev[1], k, g, t0, n)))
                 if ret < g:
-                    out.append(("wait-returned-early", "op %d: wait %d called at %d returned at %d, %d us before t0+%d*P = %d (t0=%d, P=%d us)"
-                                % (i, k, call, ret, g - ret, k, g, t0, n)))
+                    out.append(("wait-returned-early", "op %d: wait %d called at %d returned at %d, %d us before t0+%d*P = %d (t0=%d, P=%d us)%s"
+                                % (i, k, call, ret, g - ret, k, g, t0, n, ent)))
                 elif call <= g and ret != g:
-                    out.append(("wait-not-exact", "op %d: wait %d called on time at %d returned at %d, not at t0+%d*P = %d"
-                                % (i, k, call, ret, k, g)))
+                    out.append(("wait-not-exact", "op %d: wait %d called on time at %d returned at %d, not at t0+%d*P = %d%s"
+                                % (i, k, call, ret, k, g, ent)))
                 elif call > g and ret != call:
                     out.append(("overrun-not-caught-up", "op %d: wait %d was called at %d, after its grid point t0+%d*P = %d, and still "
-                                "blocked until %d: the schedule has shifted instead of catching up" % (i, k, call, k, g, ret)))
+                                "blocked until %d: the schedule has shifted instead of catching up%s" % (i, k, call, k, g, ret, ent)))
                 if cur[1] != g + n:
                     out.append(("alarm-off-grid", "op %d: after wait %d the next alarm is %s, the grid point t0+%d*P is %d"
                                 % (i, k, cur[1], k + 1, g + n)))
@@ -475,6 +548,28 @@ def edge_cases():
     cs.append(mk_case(10000, 10, loop([2000]) + [["X", "raise:GeneratorExit"], ["B", 1000], W, ["X", "end"], W]))
     cs.append(mk_case(10000, 10, loop([2000, 30000]) + [["X", "break"], W, ["X", "raise:StopIteration"], ["B", 50000], W], use_with=True))
     cs.append(mk_case(10000, 10, [F, ["X", "raise:RuntimeError"], W, ["B", 50000], W, ["X", "return"]]))
+    # the object is built first and its with-block entered LATER (set-up work in between): the grid stays the one of
+    # the construction instant.  The example of Properties/C16.v (C16_nv_entered_late), both halves
+    E = ["E"]
+    cs.append(mk_case(20000, 500000, [["B", 7000], E] + loop([5000, 50000, 1000, 1000]) + [["X", "raise:RuntimeError"], ["B", 100], W], use_with=True))
+    cs.append(mk_case(20000, 500000, [["B", 30000], E] + loop([0, 1000]) + [X], use_with=True))
+    # entered 1 us after construction, minimum period; entered P-1 us after, first wait exactly on the grid point;
+    # entered exactly one period / several periods after construction
+    cs.append(mk_case(1000, 0, [["B", 1], E] + loop([0, 999, 500]) + [X, W], use_with=True))
+    cs.append(mk_case(20000, 0, [["B", 19999], E] + loop([1, 5000, 5000]) + [["X", "break"]], use_with=True))
+    cs.append(mk_case(5000, 77, [["B", 5000], E] + loop([0, 0, 4999, 1]) + [["X", "return"], W], use_with=True))
+    cs.append(mk_case(5000, 77, [["B", 17500], E] + loop([0, 0, 0, 0, 2500, 5000]) + [X], use_with=True))
+    # for every way of leaving: entered half a period late, two iterations
+    for h in HOWS:
+        cs.append(mk_case(10000, 2 ** 32 + 5, [["B", 5000], E] + loop([1000, 9000]) + [["B", 100], ["X", h], ["B", 100], W], use_with=True))
+    # waits before the block is entered; the block entered without any set-up time but after a wait
+    cs.append(mk_case(20000, 0, [["B", 3000], W, ["B", 2000], E] + loop([1000, 1000]) + [X, W], use_with=True))
+    cs.append(mk_case(20000, 0, [W, E] + loop([1000, 45000, 0, 0]) + [X, W], use_with=True))
+    # __enter__ called directly in the middle of a plain loop (early, late); after free(); the same object in a
+    # second with-statement after the first one released it
+    cs.append(mk_case(10000, 10, loop([5000]) + [["B", 3000], E] + loop([1000, 1000]) + [["B", 25000], E, W, W, F]))
+    cs.append(mk_case(10000, 10, [F, E, W, ["B", 50000], E, W]))
+    cs.append(mk_case(10000, 10, [["B", 1000], E] + loop([1000]) + [X, ["B", 5000], E, W, X, W], use_with=True))
     return cs
 
 
@@ -508,6 +603,31 @@ def gen_case(r, below):
     free_at = nw if r.random() < 0.65 else max(r.randrange(0, nw + 1), r.randrange(0, nw + 1))
     ops = []
     now, k, freed = t0, 0, False
+    if use_with:
+        # half of the with-statements are entered some time AFTER the object was built (set-up work, now and then
+        # with a wait in it), the others at the construction instant (the one-liner)
+        if r.random() < 0.5:
+            v = r.random()
+            if v < 0.4:
+                su = r.randrange(1, n)
+            elif v < 0.5:
+                su = n
+            elif v < 0.75:
+                su = r.randrange(n, 4 * n + 1)
+            else:
+                su = r.choice([1, n - 1, n + 1, 2 * n, n // 2])
+            ops.append(["B", su])
+            now += su
+            if r.random() < 0.2:
+                ops.append(["W"])
+                k += 1
+                now = max(now, t0 + n)
+                if r.random() < 0.5:
+                    b = r.randrange(0, n)
+                    ops.append(["B", b])
+                    now += b
+        ops.append(["E"])
+    entry = len(ops)            # operations before this index are not inside the with-block
     for i in range(nw):
         if i == free_at:
             ops.append(["F"])
@@ -546,17 +666,23 @@ def gen_case(r, below):
             k += 1
             now = max(now, g)
     if use_with:
-        j = len(ops) if r.random() < 0.6 else r.randrange(0, len(ops) + 1)
+        j = len(ops) if r.random() < 0.6 else r.randrange(entry, len(ops) + 1)
         ops.insert(j, ["X", gen_how(r)])
         if r.random() < 0.5:
             ops += [["B", r.randrange(0, 2 * n)], ["W"]]
         if r.random() < 0.15:           # the same object in a second with-statement / __exit__ again
+            if r.random() < 0.5:
+                ops.append(["E"])
             ops.append(["X", gen_how(r)])
         if r.random() < 0.2:
             ops.append(["F"])
+        if r.random() < 0.1:            # __enter__ once more, anywhere after the first (nested with on the same object)
+            ops.insert(r.randrange(entry, len(ops) + 1), ["E"])
     else:
         if r.random() < 0.3:            # __exit__ called directly (ExitStack, a wrapper), anywhere
             ops.insert(r.randrange(0, len(ops) + 1), ["X", gen_how(r)])
+        if r.random() < 0.2:            # __enter__ called directly (ExitStack.enter_context), anywhere
+            ops.insert(r.randrange(0, len(ops) + 1), ["E"])
         if not any(o[0] in ("F", "X") for o in ops):
             ops.append(["F"])
         if r.random() < 0.3:
@@ -577,7 +703,7 @@ def load_corpus():
     for p in sorted(glob.glob(os.path.join(CORPUS, "C16", "*.json"))):
         try:
             c = json.load(open(p))
-            out.append({k: c[k] for k in ("n", "P", "t0", "with", "ops")})
+            out.append(norm({k: c[k] for k in ("n", "P", "t0", "with", "ops")}))
         except Exception:
             pass
     return out
@@ -603,6 +729,8 @@ def coq_op(o):
         return "Wait"
     if o[0] == "F":
         return "Free"
+    if o[0] == "E":
+        return "Enter"
     h = how_of(o)               # Delay.Model: leave_with h = Exit (exc_info h)
     return "Exit (Some %s)" % EXC[h[6:]][0] if h.startswith("raise:") else "Exit None"
 
@@ -625,6 +753,9 @@ def coq_case(name, case, res):
                 flat += flat_snap(s)
         for o, s in zip(case["ops"], res["snaps"]):
             if o[0] == "X":             # per __exit__: did an exception come out of the with-statement
+                flat.append(s[3])
+        for o, s in zip(case["ops"], res["snaps"]):
+            if o[0] == "E":             # per __enter__: did it return the object itself
                 flat.append(s[3])
         if len(res["snaps"]) != len(case["ops"]):
             flat.append(-1)             # the run stopped early: never equal to the model's list
@@ -712,11 +843,17 @@ def shrink(sim, cls, case, fp):
     while i >= 0 and budget > 0:
         ops = best["ops"][:i] + best["ops"][i + 1:]
         c = dict(best, ops=ops)
-        if best["with"] and not any(o[0] == "X" for o in ops):
-            c["with"] = False
+        if best["with"] and not with_span(c):
+            # no with-statement left: the remaining E / X are direct calls.  (Dropping the E of a with-statement
+            # whose X stays turns it into the one-liner form: norm puts an E in front.)
+            if any(o[0] == "X" for o in ops):
+                c = norm(c)
+            else:
+                c["with"] = False
         budget -= 1
         if fails(c):
             best = c
+            i = min(i, len(best["ops"]))
         i -= 1
     return best
 
@@ -805,6 +942,7 @@ def _run(ctx, sim):
     keys = set()
     nontrivial = set()
     nwaits = 0
+    n_late_entry = [0]
     for c, res in zip(cases, results):
         f = features(c, res)
         feats.append(f)
@@ -822,16 +960,28 @@ def _run(ctx, sim):
         ctx.count("waits:called-late", f[1])
         ctx.count("waits:catch-up(first on-time after overrun)", f[2])
         ctx.count("waits:after-free", f[3])
-        first_x = True
-        for o in c["ops"]:
-            ctx.count("op=%s" % {"B": "body", "W": "wait", "F": "free", "X": "with-exit"}[o[0]])
+        span = with_span(c)
+        seen_wait = False
+        for j, o in enumerate(c["ops"]):
+            ctx.count("op=%s" % {"B": "body", "W": "wait", "F": "free", "E": "with-enter", "X": "with-exit"}[o[0]])
+            if o[0] == "W":
+                seen_wait = True
+            if o[0] == "E" and j < len(res["snaps"]):
+                dt = res["snaps"][j][0] - res["t0"]
+                who = "with-statement entered" if (span and j == span[0]) else "__enter__ called directly,"
+                ctx.count("%s %s" % (who, "at the construction instant" if dt == 0 else
+                                     ("later, less than one period after construction" if dt < (c["n"] or 0) else
+                                      "later, one period or more after construction")))
+                if span and j == span[0] and dt > 0:
+                    n_late_entry[0] += 1
+                    if seen_wait:
+                        ctx.count("with-statement entered after the first wait()")
             if o[0] == "X":
                 h = how_of(o)
-                ctx.count("%s left by %s" % ("with-statement" if (c["with"] and first_x) else "__exit__ called directly,",
+                ctx.count("%s left by %s" % ("with-statement" if (span and j == span[1]) else "__exit__ called directly,",
                                             h if not h.startswith("raise:") else "exception"))
                 if h.startswith("raise:"):
                     ctx.count("exception class=%s" % h[6:])
-                first_x = False
 
     # ---- comparison inside Coq ----------------------------------------
     per = max(10, min(400, -(-len(cases) // 16)))
@@ -868,12 +1018,14 @@ def _run(ctx, sim):
         "waits_observed": nwaits,
         "distinct_cases": len(keys),
         "distinct_nontrivial": len(nontrivial),
+        "with_blocks_entered_after_construction": n_late_entry[0],
         "rule": "corpus + hand-made edge schedules + rejected/non-whole periods + seeded random schedules of 5-40 waits "
                 "(periods 1 ms..1 s, 30% whole-us periods whose double lies below the integer; bodies zero / shorter than / "
                 "equal to / 1-5x the period / aimed at the grid point +-1 us; free() at random points, repeated; 40% of the "
-                "objects used in a with-statement that is left at a random point by running to its end / break / return / "
+                "objects used in a with-statement -- half of them built first and the block entered LATER, after set-up work of "
+                "1 us .. 4 periods (20% with a wait in it), the others `with NotifierDelay(P) as d:` -- that is left at a random point by running to its end / break / return / "
                 "(half of them) an exception of 6 classes raised in the block, 30% of the others get a direct __exit__ "
-                "call with or without exception information; t0 up to 2^32 us); non-trivial = the run has at least one wait that blocked until its grid point, at "
+                "call with or without exception information, 20% a direct __enter__ call somewhere; t0 up to 2^32 us); non-trivial = the run has at least one wait that blocked until its grid point, at "
                 "least one late call and at least one catch-up (first on-time wait after an overrun); distinct = different "
                 "(period, t0, operations)",
         "exhaustive": False,
@@ -940,12 +1092,17 @@ def replay(ctx, obj):
     sim.install()
     try:
         cls = impl()
-        case = {k: obj[k] for k in ("n", "P", "t0", "with", "ops")}
+        case = norm({k: obj[k] for k in ("n", "P", "t0", "with", "ops")})
         res = drive(sim, cls, case)
     finally:
         sim.enabled = False
         sim.remove()
-    print("NotifierDelay(%r) [%s us] built at FPGA time %d%s" % (case_P(case), case["n"], res["t0"], ", used as a with-block" if case["with"] else ""))
+    span = with_span(case)
+    print("NotifierDelay(%r) [%s us] built at FPGA time %d%s" % (
+        case_P(case), case["n"], res["t0"],
+        "" if not span else (", used as `with NotifierDelay(..) as d:` (ops 1..%d are the block)" % span[1] if span[0] == 0 else
+                             ", built first (ops 0..%d run before), then `with d:` entered at op %d (ops %d..%d are the block)"
+                             % (span[0] - 1, span[0], span[0] + 1, span[1]))))
     print("constructor: %s   after it: time, alarm, cleanNotifier calls = %s" % (res["ctor"], res["snap0"]))
     for o, s in zip(case["ops"], res["snaps"]):
         print("  %-10s -> time %d  alarm %s  released %d" % (" ".join(str(x) for x in o), s[0], s[1], s[2]))
